@@ -57,6 +57,20 @@ def run(tier, seed, rng):
                         'evaluations': len(lines), 'build_s': round(wall, 1), 'disagreements': nbad}
     res.cov['evaluations'] = len(lines)
     res.cov['exhaustive'] = True
+    # ---- identifiers with non-ASCII letters are outside the Lean model (Unicode tables are not modelled): a TEST, not a
+    # proof - the crate's convert_case against a transcription of the documented style table over the external heck crate
+    NONASCII = ['Café', 'Über_Größe', 'naïveBar', 'Straße2Go', 'ÉcoleNormale', 'Ωmega3', 'ЖукЖук', 'x9é', 'ÀB', 'déjàVu', 'ǅx', 'İstanbul']
+    l2 = ['case %s %s' % (st, hx(s)) for st in STYLE_STRINGS for s in NONASCII]
+    r2 = ['caseref %s %s' % (st, hx(s)) for st in STYLE_STRINGS for s in NONASCII]
+    o2 = modea.run(binp, l2 + r2)
+    nb2 = 0
+    for l, got, ref in zip(l2, o2[:len(l2)], o2[len(l2):]):
+        if got != ref:
+            nb2 += 1
+            if nb2 <= 2:
+                res.violation({'kind': 'disagreement', 'label': 'modeA-nonascii', 'op': l, 'model': ref, 'impl': got,
+                               'what': 'convert_case on a non-ASCII identifier differs from the reference transcription (outside the Lean model: differential test)'})
+    res.cov['nonascii_identifiers_tested_outside_model'] = {'identifiers': len(NONASCII), 'styles': len(STYLE_STRINGS), 'disagreements': nb2}
     # ---- mode B: the renamed identifier is used identically by every derive
     sample = [s for s in DICT if s not in RUST_KEYWORDS]
     pool = [s for s in all_idents(4) if s not in RUST_KEYWORDS and any(ch.isalpha() for ch in s)]
@@ -69,13 +83,14 @@ def run(tier, seed, rng):
     for st in STYLE_STRINGS:
         for i in range(0, len(sample), 10):
             chunk = sample[i:i + 10]
-            e = ESpec(id='c07_%d' % k, name='EnC07x%d' % k, style=st, derives=derives, feats=['parse', 'names', 'vnames', 'roundtrip'])
+            # the renamed identifier is what a case-insensitive variant compares against, too
+            e = ESpec(id='c07_%d' % k, name='EnC07x%d' % k, style=st, derives=derives, feats=['parse', 'names', 'vnames', 'roundtrip'], ci=(k % 3 == 1))
             seen = set()
-            for s in chunk:
+            for j, s in enumerate(chunk):
                 if s in seen:
                     continue
                 seen.add(s)
-                e.variants.append(VSpec(ident=s))
+                e.variants.append(VSpec(ident=s, ci=(True if (k % 3 == 2 and j % 3 == 0) else None)))
             # explicit names must never be re-cased
             e.variants.append(VSpec(ident='ExplicitTs', ts='Keep_ThisCASE'))
             e.variants.append(VSpec(ident='ExplicitSer', ser=['ser_Keep-CASE', 'x']))
